@@ -608,6 +608,10 @@ class C04World:
             if st != sc:
                 raise _V(Violation("PERTURB", f"copy taken during iteration differs from original: "
                                    f"{first_diff(list(st), list(sc))}"[:600], {"op": op, "pre": pre}))
+            if ev.get("adopt") is not None and len(self.slots) < MAX_SLOTS:
+                # the copy taken while the original's iterator is suspended lives on as a subject of its own
+                self.slots.append(Slot(c))
+                self.stats["adopt/copy_during_iteration"] += 1
             it.perturbed += 1
             it.read_since_yield = True
             self.perturbations += 1
@@ -729,6 +733,8 @@ def _gen_event(rng, world, knobs):
             ev = {"op": op, "slot": si}
             if op in OPS:
                 ev["args"] = OPS[op][1](rng, S)
+            if op == "copy" and rng.random() < 0.5:
+                ev["adopt"] = 0
             return ev
         if r < 0.93:
             return {"op": "iter_close", "slot": si}
